@@ -43,6 +43,30 @@ def unfilter(v):
     return None, None
 
 
+def noise_draws(it, current):
+    """the Gaussian noise terms of a detector current: [(std, loc, size, term, call record)].  A draw is normal(loc, scale, size) or,
+    equivalently, loc + scale * standard_normal(size) (the scale is then read off the current as the coefficient of the draw)"""
+    draws = []
+    for r in it.calls:
+        if r.callee == "numpy.random.normal":          # at any depth: the draw may sit in a private helper or closure
+            draws.append((pull_scalars(r.arg(1, "scale"), scalar_atom) if isinstance(r.arg(1, "scale"), Form) else None, r.arg(0, "loc"), r.arg(2, "size"), r.result, r))
+    for r in it.calls:
+        if r.callee in ("numpy.random.standard_normal", "numpy.random.randn") or (r.callee or "").endswith(">.standard_normal"):
+            R = r.result
+            ra = R.single_atom() if isinstance(R, Form) else None
+            if ra is None or current is None:
+                continue
+            part = Form({m: c for m, c in current.terms.items() if any(a == ra and e == 1 for a, e in m)})
+            if part.is_zero():
+                continue
+            try:
+                coeff = part / R
+            except Exception:
+                continue
+            draws.append((pull_scalars(coeff, scalar_atom), Form.num(0), r.arg(0, "size"), coeff * R, r))
+    return draws
+
+
 def run(ctx):
     pkg = ctx.pkg
     fi = pkg.func("devices.PD")
@@ -54,6 +78,7 @@ def run(ctx):
         case = f"include_noise='{opt}' n_pol={npol} noise={noise}"
         low = opt.lower()
         it = Interp(pkg, assumptions={"include_noise": opt, "input.noise": noise, "input.n_pol": npol}, param_classes={"input": "optical_signal"})
+        it.tag_draws = True
         outs = it.run(fi)
         rets = [o for o in outs if o.kind == "return"]
         if not rets and outs and all(o.kind == "raise" for o in outs):
@@ -99,25 +124,7 @@ def run(ctx):
             kinds.add("ase")
         used = {}
         # a draw is normal(loc, scale, size) or, equivalently, loc + scale * standard_normal(size): both are read as (std, loc, size)
-        draws = []
-        for r in normals:
-            draws.append((pull_scalars(r.arg(1, "scale"), scalar_atom) if isinstance(r.arg(1, "scale"), Form) else None, r.arg(0, "loc"), r.arg(2, "size"), r.result, r))
-        Yn = Y / S("R_load") if isinstance(Y, Form) else None
-        for r in it.calls:
-            if r.callee in ("numpy.random.standard_normal", "numpy.random.randn") or (r.callee or "").endswith(">.standard_normal"):
-                R = r.result
-                ra = R.single_atom() if isinstance(R, Form) else None
-                if ra is None or Yn is None:
-                    continue
-                part = Form({m: c for m, c in Yn.terms.items() if any(a == ra and e == 1 for a, e in m)})
-                if part.is_zero():
-                    continue
-                try:
-                    coeff = part / R
-                except Exception:
-                    continue
-                size = r.arg(0, "size")
-                draws.append((pull_scalars(coeff, scalar_atom), Form.num(0), size, coeff * R, r))
+        draws = noise_draws(it, Y / S("R_load") if isinstance(Y, Form) else None)
         for std, loc, size, result_, r in draws:
             which = "thermal" if std == std_T else ("shot" if std == std_N else None)
             okmeta = isinstance(loc, Form) and loc.is_zero() and isinstance(size, Form) and size == N
@@ -147,8 +154,11 @@ def run(ctx):
             want = want + s_n + n_n
         elif "ase" in kinds:
             want = want + 2 * mk_fn("zeros", [N])
-        got = pull_scalars(Y / S("R_load"), scalar_atom)
-        wantn = pull_scalars(want, scalar_atom)
+        def flat(f):
+            # an array filled with one value is that value at every sample: c*ones(N) -> c, zeros(N) -> 0 (N the record length)
+            return f.subst(lambda a_: (Form.num(1) if a_[1] == "ones" else Form.num(0)) if a_[0] == "fn" and a_[1] in ("ones", "zeros") and len(a_[2]) == 1 and not a_[3] and a_[2][0] == N else None)
+        got = pull_scalars(flat(Y / S("R_load")), scalar_atom)
+        wantn = pull_scalars(flat(want), scalar_atom)
         if got == wantn:
             ctx.holds("C09.3", fi, node, f"PD [{case}] noise current", f"i_dark + {sorted(kinds)} terms, times R_load")
         else:
